@@ -82,6 +82,11 @@ def gen_cases(tier, seed, gen, effort):
             for collect in (True, False):
                 be = "std" if rnd.random() < 0.5 else rnd.choice(["noteq", "noin"])
                 cases.append({"kinds": list(a), "pipe": pipe, "collect": collect, "backend": be})
+    # correlation rules whose referenced rule fails: they cannot be converted either and get exactly one record; the rest is untouched
+    for order in ([0, 1, 2, 3], [2, 3, 0, 1], [1, 3, 0, 2], [3, 2, 1, 0]):
+        for failkind in ("placeholder", "badvalue", "missingdet", "pipefail"):
+            for collect in (True, False):
+                cases.append({"corrfail": failkind, "order": order, "collect": collect, "kinds": ["corrfail"], "pipe": True, "backend": "std"})
     # verbatim copies of a rule (equal objects): every copy still contributes its own queries / its own error record
     for a in arrs[: (400 if not thorough else 4000)]:
         if len(a) >= 2 and len(set(a)) < len(a):
@@ -97,8 +102,34 @@ def mk_backend(pipe, collect, be="std"):
     return cls(pl, collect_errors=collect)
 
 
+def corrfail_docs(case):
+    bad = dict(rule_doc(case["corrfail"], 0), name="bad_rule")
+    good = dict(rule_doc("ok1", 1), name="good_rule")
+    corr = lambda t, ref: {"title": t, "correlation": {"type": "event_count", "rules": [ref], "group-by": ["fieldA"], "timespan": "5m", "condition": {"gte": 2}}}
+    return [bad, good, corr("corr_on_bad", "bad_rule"), corr("corr_on_good", "good_rule")]
+
+
+def run_corrfail(case):
+    from sigma.collection import SigmaCollection
+    docs = corrfail_docs(case)
+    out = {"outcome": "ok"}
+    try:       # what the good pair converts to without the failing pair around
+        out["want"] = mk_backend(True, False).convert(SigmaCollection.from_dicts(copy.deepcopy([docs[1], docs[3]])))
+        b = mk_backend(True, case["collect"])
+        try:
+            out["output"] = b.convert(SigmaCollection.from_dicts(copy.deepcopy([docs[i] for i in case["order"]])))
+            out["errors"] = [[r.title, outcome_of_exception(e)] for r, e in b.errors]
+        except Exception as e:
+            out["raised"] = outcome_of_exception(e)
+    except Exception as e:
+        return {"outcome": "harness:" + outcome_of_exception(e), "msg": str(e)[:200]}
+    return out
+
+
 def run_impl(case):
     from sigma.collection import SigmaCollection
+    if case.get("corrfail"):
+        return run_corrfail(case)
     docs = [rule_doc(k, 0 if case.get("same") else i) for i, k in enumerate(case["kinds"])]     # "same": verbatim copies of a rule
     solo = []
     for d in docs:
@@ -117,6 +148,8 @@ def run_impl(case):
 
 
 def make_request(case, impl, gen):
+    if case.get("corrfail"):
+        return {"op": "ping"}
     qid, eid = {}, {}
     rules = []
     for i, s in enumerate(impl["solo"]):
@@ -128,7 +161,29 @@ def make_request(case, impl, gen):
     return {"op": "coll.convert", "collect": case["collect"], "rules": rules, "_q": None}
 
 
+def judge_corrfail(case, impl):
+    key = ("corrfail", case["corrfail"], tuple(case["order"]), case["collect"])
+    tags = ("kind:corrfail", f"collect:{case['collect']}", f"impl:{impl['outcome'].split(':')[0]}")
+    if impl["outcome"] != "ok":
+        return Verdict("drift", f"harness could not convert the good pair: {impl.get('msg')}", True, key, tags=tags)
+    titles = [corrfail_docs(case)[i]["title"] for i in case["order"]]
+    if case["collect"]:
+        if "raised" in impl:
+            return Verdict("violation", f"error collection is on but convert raised {impl['raised']} for the collection {titles} (a correlation rule refers to a rule that fails: {case['corrfail']})", True, key, tags=tags)
+        if impl["output"] != impl["want"]:
+            return Verdict("violation", f"collection {titles}: emitted {impl['output']}, but only the correlation over the good rule can be converted: {impl['want']}", True, key, tags=tags)
+        got = sorted(t for t, _ in impl["errors"])
+        if got != sorted([f"{case['corrfail']}_0", "corr_on_bad"]):
+            return Verdict("violation", f"collection {titles}: error records for {got}; exactly the failing rule and the correlation rule that refers to it cannot be converted", True, key, tags=tags)
+    else:
+        if "raised" not in impl or not impl["raised"].startswith("sigma:"):
+            return Verdict("violation", f"collection {titles} without error collection: a Sigma error must be raised, got {impl.get('raised') or impl.get('output')}", True, key, tags=tags)
+    return Verdict("ok", "", True, key, tags=tags)
+
+
 def judge(case, impl, reply):
+    if case.get("corrfail"):
+        return judge_corrfail(case, impl)
     io = impl["outcome"]
     solo = impl["solo"]
     kinds = case["kinds"]
